@@ -24,6 +24,7 @@ CONSTANTS
   MayDrain = TRUE
   MaxT = 0
   TStep = 1
+  FreeOrder = FALSE
 INVARIANTS
   OneFate PortOk LostOnePerDeath NoFactoryPanic KeyExclusive KeyFifo OneAtATime HashInPool RoundRobinCovers QueuerNoIdle ViewExact
   QueueBound HookOrder PoolConverges DrainComplete DrainRefuses
